@@ -86,15 +86,39 @@ def shape(inv):
     return {p: (r["type"], r.get("sha"), r.get("target")) for p, r in inv.items()}
 
 
+def temp_paths(events, target):
+    """Temporary siblings, recognised by what happens to them and not by their name: paths that come into being
+    during the run (destination of a rename inside one directory, or an open with O_CREAT as their first appearance)
+    and are unlinked again before the run ends."""
+    first = {}
+    unlinked = set()
+    for e in events:
+        if e.cls != "m":
+            continue
+        if e.call == "rename" and e.ret == 0 and os.path.dirname(e.path) == os.path.dirname(e.path2):
+            first.setdefault(e.path, "old")
+            first.setdefault(e.path2, "created")
+        elif e.call == "open" and "creat" in e.info and e.ret >= 0:
+            first.setdefault(e.path, "created")
+        elif e.call == "unlink" and e.ret == 0:
+            first.setdefault(e.path, "old")
+            unlinked.add(e.path)
+        else:
+            for q in (e.path, e.path2):
+                if q:
+                    first.setdefault(q, "old")
+    return set(q for q, how in first.items() if how == "created" and q in unlinked and not (target and q.startswith(target)))
+
+
 def real_ops(events, tree_root, target):
     """Derives the operations of a real run from the shim's call log."""
     ops = []
     pending = {}     # temp path -> original path
-    i = 0
+    temps = temp_paths(events, target)
     for e in events:
         if e.cls != "m":
             continue
-        if e.call == "rename" and S.TMP_SUFFIX.search(e.path2) and e.path2.startswith(e.path + "."):
+        if e.call == "rename" and e.path2 in temps:
             pending[e.path2] = {"file": e.path, "kind": None, "target": None}
         elif e.call == "link" and any(v["file"] == e.path2 for v in pending.values()) and e.ret == 0:
             [v for v in pending.values() if v["file"] == e.path2][0].update(kind="hardlink", target=e.path)
@@ -104,7 +128,7 @@ def real_ops(events, tree_root, target):
             v = pending.pop(e.path)
             if v["kind"]:
                 ops.append(v)
-        elif e.call == "unlink" and e.ret == 0 and not S.TMP_SUFFIX.search(e.path):
+        elif e.call == "unlink" and e.ret == 0 and e.path not in temps:
             # plain remove, or the source of a move by copy
             mv = [o for o in ops if o["kind"] == "move_copy_pending" and o["file"] == e.path]
             if mv:
@@ -113,7 +137,7 @@ def real_ops(events, tree_root, target):
                 ops.append({"kind": "remove", "file": e.path, "target": None})
         elif e.call == "rename" and e.ret == 0 and target and e.path2.startswith(target):
             ops.append({"kind": "move_rename", "file": e.path, "target": e.path2})
-        elif e.call == "ficlone" and e.ret == 0 and not S.TMP_SUFFIX.search(e.path):
+        elif e.call == "ficlone" and e.ret == 0 and e.path not in temps:
             ops.append({"kind": "reflink", "file": e.path, "target": e.path2})
         elif e.call in ("copy_file_range", "sendfile") and target and e.path.startswith(target) and e.ret > 0:
             if not any(o["file"] == e.path2 for o in ops):
@@ -127,7 +151,7 @@ def evaluate_output(case):
     viol = []
     n = case["ngroups"]
     feat = {"op": case["op"], "output": case["how"], "kind": "script_file_differs"}
-    norm = lambda s: re.sub(r"\.[A-Za-z0-9]{24}(?![A-Za-z0-9])", ".TMP", s)
+    norm = script_key
     with C.Scratch() as sc:
         tree = []
         for g in range(n):
@@ -276,6 +300,15 @@ def evaluate(case):
             "sample": {"tree": case["tree"], "op": case["op"], "args": dargs, "script_head": dry["out"][:300]}}
 
 
+def script_key(text):
+    """A script up to the (random) names of its temporary files: the parsed operations in order; text that does not
+    parse as a complete script (e.g. one cut off in the middle) is kept as it is."""
+    try:
+        return repr([(o["kind"], o["file"], o["target"]) for o in D.parse_script(text)])
+    except Exception:
+        return "unparsed:" + text
+
+
 def perm_count(n):
     return math.factorial(n)
 
@@ -294,7 +327,7 @@ def evaluate_orders(case):
         ref = None
         runs = 0
         outs = set()
-        norm = lambda s: re.sub(r"\.[A-Za-z0-9]{24}(?![A-Za-z0-9])", ".TMP", s)
+        norm = script_key
         for idx in range(perm_count(n)):
             r = D.run_dedupe(sc, case["op"], case.get("dargs", []), report, dry_run=True, target=target,
                              env_extra={"FCLONES_VERIF_PERM": "log_script:%d" % idx, "RAYON_NUM_THREADS": "2"}, timeout=60)
